@@ -529,7 +529,8 @@ func (c *DataCondition) invert() ConditionsSet {
 }
 
 func (c *ImpossibleCondition) invert() ConditionsSet {
-	return ConditionsSet{}
+	// !false == true: one conjunct without conditions (the empty set means "no filter given")
+	return ConditionsSet{Conditions{}}
 }
 
 func (t *queryTerm) QueryConditions(pc *parserContext) (ConditionsSet, error) {
@@ -894,6 +895,10 @@ func (t *queryTerm) QueryConditions(pc *parserContext) (ConditionsSet, error) {
 
 func (cs Conditions) invert() ConditionsSet {
 	// !(a & b & c) == !a | !b | !c
+	if len(cs) == 0 {
+		// !true == false; an empty set would be dropped by And/Or/then like a missing filter
+		return ConditionsSet{Conditions{&impossibleCondition}}
+	}
 	res := ConditionsSet(nil)
 	for _, c := range cs {
 		res = res.Or(c.invert())
